@@ -171,7 +171,7 @@ def main_loop_listener(path, name, ndg=1, cfg_lines=()):
     return '\n'.join(o) + '\n'
 
 
-def packet_fn_listener(path, name, call, ndg=1, pre=(), extra_stubs=''):
+def packet_fn_listener(path, name, call, ndg=1, pre=(), extra_stubs='', between=None):
     o = ['#define VP_NDG %d' % ndg, STUBS, extra_stubs]
     o.append('#define main listener_main')
     o.append('#include "%s"' % path)
@@ -182,6 +182,12 @@ def packet_fn_listener(path, name, call, ndg=1, pre=(), extra_stubs=''):
     o.append('  for (int i = 0; i < VP_NDG; i++) {')
     o.append('    int r = %s;' % call)
     o.append('    VP_ASSERT(r >= 0, "C18 %s remains able to process the next datagram (no fatal status for a bad datagram)");' % name)
+    if between:
+        # the main loop may serve the timer between two datagrams (symbolic choice; only when armed)
+        o.append('    if ((vp_g.st[8 + i] & 1) && %s) {' % between[0])
+        o.append('      r = %s;' % between[1])
+        o.append('      VP_ASSERT(r >= 0, "C18 %s timer expiry between datagrams is served without a fatal status");' % name)
+        o.append('    }')
     o.append('  }')
     o.append('  VP_REACH("c18 %s end");' % name)
     o.append('}')
